@@ -50,5 +50,36 @@ func factsDeliver() {
 	} else {
 		unrec(g, "seqIncrRightAfterObfuscate", "obfuscateAndSend not found")
 	}
+	// dispatchConnection: the connection that made the session runs serveSession for it — also when its own handshake reply
+	// could not be written (that path returns only for a connection that JOINED an existing session)
+	if fn := fnOf(sv, "dispatchConnection"); fn != nil {
+		evs := rawEvents(fn)
+		iFin := idx(evs, 0, "call", `^finishHandshake\(conn, sesh\.GetSessionKey\(\)`)
+		iErr := idx(evs, iFin, "if", `^err != nil$`)
+		iEnd := matchingEnd(evs, iErr)
+		iServe := idx(evs, 0, "call", `^serveSession\(sesh, ci, user, sta\)`)
+		ok := iFin >= 0 && iErr > iFin && iEnd > iErr && iServe > iEnd && evs[iErr].depth == 0
+		if ok {
+			// inside the error branch every return is guarded by `if existing`
+			for i := iErr + 1; i < iEnd && evs[i].kind != "else"; i++ {
+				if evs[i].kind == "return" {
+					g1 := false
+					for j := i - 1; j > iErr; j-- {
+						if evs[j].kind == "if" && evs[j].depth == evs[i].depth-1 {
+							g1 = evs[j].text == "existing"
+							break
+						}
+					}
+					ok = ok && g1
+				}
+			}
+			// serveSession sits in `if !existing` at depth 0 after the branch
+			iNe := idx(evs, iEnd, "if", `^!existing$`)
+			ok = ok && iNe > iEnd && iNe < iServe && evs[iNe].depth == 0
+		}
+		boolFact(g, "creatorServesSessionEvenIfReplyFails", ok, "dispatchConnection: a failed handshake reply returns only when the session existed; the connection that made the session reaches serveSession")
+	} else {
+		unrec(g, "creatorServesSessionEvenIfReplyFails", "dispatchConnection not found")
+	}
 	var _ ast.Node
 }
